@@ -93,6 +93,20 @@ func namedCases(thorough bool) []ccase {
 		// (with M > 1 the reduce tasks run on every machine and each commits on every
 		// machine, so the kill above also covers "a machine holding a dependency dies
 		// while the task runs on another, surviving machine")
+		// proc demand pragmas: Procs(k) below, at, and above the machine's task capacity
+		// (clamped), and Exclusive; each followed by a burst of one-proc tasks
+		mp := int(float64(s.P) * s.Load)
+		if mp < 1 {
+			mp = 1
+		}
+		seenK := map[int]bool{}
+		for _, k := range []int{1, mp, mp + 1, 4 * mp} {
+			if !seenK[k] {
+				seenK[k] = true
+				cs = append(cs, ccase{Kind: "named", Cluster: s.M, P: s.P, MaxLoad: s.Load, Scenario: "procs", K: k})
+			}
+		}
+		cs = append(cs, ccase{Kind: "named", Cluster: s.M, P: s.P, MaxLoad: s.Load, Scenario: "procs", Excl: true})
 		// missing dependency location (state forced through an accessor)
 		add(s, 0, false, "missing-location", nil)
 		// cancellation of the run's context
@@ -267,9 +281,9 @@ func runCluster(r *ev.Run) (map[string]interface{}, int64, int64) {
 	paths := map[string]int{}
 	pathFired := map[string]int{}
 	var (
-		executed, fired, withRule, vacuous, hung, probes, probeOK, inconclusive int
-		table                                                                   []map[string]interface{}
-		samples                                                                 int
+		executed, fired, withRule, vacuous, hung, probes, probeOK, inconclusive, bursts, burstPeak int
+		table                                                                                      []map[string]interface{}
+		samples                                                                                    int
 	)
 	for i, res := range results {
 		if skipped[i] {
@@ -315,6 +329,12 @@ func runCluster(r *ev.Run) (map[string]interface{}, int64, int64) {
 			probes++
 			if res.ProbeOK {
 				probeOK++
+			}
+		}
+		if res.BurstWaves > 0 {
+			bursts++
+			if res.BurstPeak > burstPeak {
+				burstPeak = res.BurstPeak
 			}
 		}
 		row := map[string]interface{}{"case": res.Name, "kind": cases[i].Kind, "fired": res.Fired, "exit_path": res.Path, "quiescent": res.Quiescent,
@@ -367,27 +387,29 @@ func runCluster(r *ev.Run) (map[string]interface{}, int64, int64) {
 			"machines_at_quiescence": res.Views, "probe_ok": res.ProbeOK, "rpcs": head(res.Calls, 12)})
 	}
 	cov := map[string]interface{}{
-		"cases":                       len(cases),
-		"cases_executed":              executed,
-		"cases_skipped_budget":        nskipped,
-		"named_cases":                 len(cases) - len(sweep),
-		"sweep_cases":                 len(sweep),
-		"sweep_rpc_labels":            labels,
-		"cases_with_fault":            withRule,
-		"faults_fired":                fired,
-		"vacuous_cases":               vacuous,
-		"runs_hung":                   hung,
-		"inconclusive_cases":          inconclusive,
-		"capacity_probes":             probes,
-		"capacity_probes_ok":          probeOK,
-		"book_samples":                samples,
-		"distinct_exit_paths":         len(paths),
-		"exit_paths":                  paths,
-		"scenario_fault_to_exit_path": pathFired,
-		"confirmed_reruns":            len(confs) * 3,
-		"table":                       table,
-		"not_covered":                 "Run's `case <-ctx.Done()` before a machine is offered and the `ctx.Err() != nil` branch after Worker.Run: ctx is the process-wide backgroundcontext, whose cancellation also stops the managers (no live session to test afterwards). The compile-loop branch for a context error cached from a prior invocation is not reachable through the transport. 'missing dependency location' is forced by deleting location entries through an accessor.",
-		"oracles":                     "books (accessor): 0 <= taskProcs <= maxTaskProcs at every RPC boundary and every 2ms; all machines back to 0 procs in use and no queued request once no Compile/Run/CommitCombiner RPC is in flight; black box: one Exclusive task per machine, all waiting for each other, must complete (machine count capped); no Worker.Compile/Run to a machine on probation or marked lost",
+		"cases":                        len(cases),
+		"cases_executed":               executed,
+		"cases_skipped_budget":         nskipped,
+		"named_cases":                  len(cases) - len(sweep),
+		"sweep_cases":                  len(sweep),
+		"sweep_rpc_labels":             labels,
+		"cases_with_fault":             withRule,
+		"faults_fired":                 fired,
+		"vacuous_cases":                vacuous,
+		"runs_hung":                    hung,
+		"inconclusive_cases":           inconclusive,
+		"capacity_probes":              probes,
+		"capacity_probes_ok":           probeOK,
+		"book_samples":                 samples,
+		"bursts_run":                   bursts,
+		"burst_max_tasks_in_user_code": burstPeak,
+		"distinct_exit_paths":          len(paths),
+		"exit_paths":                   paths,
+		"scenario_fault_to_exit_path":  pathFired,
+		"confirmed_reruns":             len(confs) * 3,
+		"table":                        table,
+		"not_covered":                  "Run's `case <-ctx.Done()` before a machine is offered and the `ctx.Err() != nil` branch after Worker.Run: ctx is the process-wide backgroundcontext, whose cancellation also stops the managers (no live session to test afterwards). The compile-loop branch for a context error cached from a prior invocation is not reachable through the transport. 'missing dependency location' is forced by deleting location entries through an accessor.",
+		"oracles":                      "never more Worker.Run RPCs in flight on a machine than its task capacity (all cases); after Procs(k)/Exclusive tasks a burst of one-proc tasks that stay in user code until the manager has handed out all it will: never more than capacity inside user code; books (accessor): 0 <= taskProcs <= maxTaskProcs at every RPC boundary and every 2ms; all machines back to 0 procs in use and no queued request once no Compile/Run/CommitCombiner RPC is in flight; black box: one Exclusive task per machine, all waiting for each other, must complete (machine count capped); no Worker.Compile/Run to a machine on probation or marked lost",
 	}
 	return cov, 0, int64(executed)
 }
